@@ -292,6 +292,7 @@ class C16(Check):
                 return res
             src = ctx1.db_path
             runs = []
+            has_dups = False
             for vi, muts in enumerate([[]] + case["variants"]):
                 wd = os.path.join(base_dir, f"v{vi}")
                 os.makedirs(wd, exist_ok=True)
@@ -308,6 +309,12 @@ class C16(Check):
                 rec = sched.observe(c2)
                 upd = {}
                 judge_updates(viol, cnt, res, upd)
+                keys = [(o[0], int(o[7] * 1_000_000), int(o[8] * 1_000_000), int(o[9] * 1_000_000), o[2]) for o in info["observations"]]
+                if len(keys) != len(set(keys)):
+                    # the loader drops "duplicate" observations (same sensor position, target, epoch) keeping the first row:
+                    # with a primary and a serendipitous observation of one target by one sensor, *which* one is used
+                    # depends on the row order - a different observation set, not a different order of the same set
+                    has_dups = True
                 runs.append((muts, rec, len([o for o in info["observations"] if o[3] is not None]), upd))
             base_rec = runs[0][1]
             mx = 0.0
@@ -315,6 +322,9 @@ class C16(Check):
                 if rec["error"] or base_rec["error"]:
                     if bool(rec["error"]) != bool(base_rec["error"]) and not (rec["numerical"] or base_rec["numerical"]):
                         viol.append({"clause": "abort-depends-on-representation", "key": "importer", "detail": f"as-stored run error {base_rec['error']!r}, re-represented run ({muts}) error {rec['error']!r}"})
+                    continue
+                if has_dups and any(m["op"] == "shuffle" for m in muts):
+                    cnt["shuffle_skipped_importer_has_duplicate_observations"] = cnt.get("shuffle_skipped_importer_has_duplicate_observations", 0) + 1
                     continue
                 what = "angle-representation" if any(m["op"] == "angles" for m in muts) else "observation-order"
                 mx = max(mx, compare_estimates(runs[0][3], upd, (what, "importer", f"observations as stored and re-represented by {muts}"), viol, cnt))
